@@ -461,22 +461,58 @@ def _i2(prog, res):
     if not learned:
       raise _Unrecognised('learned missing output')
     e = learned[0]
-    if not (isinstance(e.op, ast.Add)):
-      raise _Unrecognised(norm_text(e)[:50])
-    base, scaled = (e.left, e.right) if not isinstance(e.left, ast.BinOp) \
-        else (e.right, e.left)
-    if roles.role_of_name(dotted(base)) != 'min':
-      probs.append('learned missing output starts at %s, expected '
-                   'keypoint_output_min' % norm_text(base))
-    if not (isinstance(scaled, ast.BinOp) and isinstance(scaled.op, ast.Mult)):
-      raise _Unrecognised(norm_text(scaled)[:50])
-    sg, rg = (scaled.left, scaled.right) if ext(scaled.left) in (
-        'tf.sigmoid', 'tf.math.sigmoid', 'tf.nn.sigmoid') else (scaled.right,
-                                                                scaled.left)
-    if ext(sg) not in ('tf.sigmoid', 'tf.math.sigmoid', 'tf.nn.sigmoid'):
+    # semantic: the expression is an affine image a + b * S of a sigmoid S
+    # (polynomial over the symbols m = output min, M = output max, S) and must
+    # send S = 0 to m and S = 1 to M
+    from .C14 import Poly
+
+    def poly(x):
+      d = dotted(x)
+      if d is not None:
+        r = roles.role_of_name(d)
+        if r in ('min', 'max') and 'output' in d:
+          return Poly.sym('m' if r == 'min' else 'M')
+        if r in ('min', 'max'):
+          return Poly.sym(d)       # a bound of something else: its own symbol
+        raise _Unrecognised('name %s in the learned missing output' % d)
+      if isinstance(x, ast.Call) and ext(x) in ('tf.sigmoid', 'tf.math.sigmoid',
+                                                 'tf.nn.sigmoid'):
+        return Poly.sym('S')
+      if isinstance(x, ast.Constant) and isinstance(x.value, (int, float)):
+        from fractions import Fraction
+        return Poly.const(Fraction(x.value).limit_denominator(10 ** 9))
+      if isinstance(x, ast.BinOp):
+        a, b = poly(x.left), poly(x.right)
+        if isinstance(x.op, ast.Add):
+          return a + b
+        if isinstance(x.op, ast.Sub):
+          return a - b
+        if isinstance(x.op, ast.Mult):
+          return a * b
+      if isinstance(x, ast.UnaryOp) and isinstance(x.op, ast.USub):
+        return -poly(x.operand)
+      raise _Unrecognised(norm_text(x)[:50])
+
+    P = poly(e)
+
+    def at(P, s_val):
+      out = Poly()
+      for mono, c in P.t.items():
+        d = dict(mono)
+        k = d.pop('S', 0)
+        if k and s_val == 0:
+          continue
+        out = out + Poly({tuple(sorted(d.items())): c})
+      return out
+    if 'S' not in {n for mono in P.t for n, _ in mono}:
       probs.append('learned missing output is not squashed by a sigmoid')
-    else:
-      probs += range_factor(rg, 'output')
+    lo, hi = at(P, 0), at(P, 1)
+    if not (lo == Poly.sym('m')):
+      probs.append('with the sigmoid at 0 the learned missing output is %s, '
+                   'not keypoint_output_min (m)' % lo)
+    if not (hi == Poly.sym('M')):
+      probs.append('with the sigmoid at 1 the learned missing output is %s, '
+                   'not keypoint_output_max (M)' % hi)
     return probs
   report('missing', 'missing inputs -> missing output in [min, max]', missing)
 
